@@ -225,6 +225,14 @@ func checkC18(c c18Case, rec *Rec) *Violation {
 			return viol(id, "C18:harness", "storage: %v", ferr)
 		}
 		fd := urlfilter.NewDNSEngine(fst)
+		// the lines are asked about in the order they stand in the file
+		for _, pre := range []string{"other.example", "same-ip.example"} {
+			res, _ := fd.Match(pre)
+			if len(res.HostRulesV4)+len(res.HostRulesV6) == 0 {
+				fcleanup()
+				return viol(id, c18Sig(c, "C18:engine-differs:file-backed-lines-in-order"), "file-backed list %q: DNSEngine.Match(%q) returns no host rule", other+"\n"+fifth+"\n"+line, pre)
+			}
+		}
 		for _, nm := range c.Names {
 			res, _ := fd.Match(nm)
 			found := false
@@ -293,6 +301,7 @@ func genC18(t *rapid.T) c18Case {
 		case 4:
 			cm = pick(t, "plain", []string{"note", " note", "", " ", "\tnote", "!x", " ||x^",
 				// element-hiding markers further inside the comment
+				" publicit\xe9", "\xff\xfe", " caf\xe9 # x", // legacy 8-bit text
 				" replaces a.org##.banner", "see issue##12", " a##b", " x#@#y", "note #?#z", " a.org#$#body{}"})
 		}
 		c.Comment = &cm
